@@ -329,7 +329,7 @@ struct Engine
                 }
                 else
                 {
-                    pm[s].owns_block = true;  // element-wise move into new storage: the source keeps its block and moved-from objects
+                    pm[s].owns_block = src.owns_block;  // element-wise move into new storage: the source keeps its block (a zero-byte element may have none) and moved-from objects
                     pm[s].residual_objects = tracked_objects(src.e);
                 }
                 break;
@@ -385,7 +385,7 @@ struct Engine
                 }
                 else
                 {
-                    pm[s].owns_block = true;
+                    pm[s].owns_block = src.owns_block;  // it keeps what it had (a zero-byte element may own no block at all)
                     pm[s].residual_objects = tracked_objects(src.e);
                 }
             }
